@@ -3,7 +3,6 @@ package chk
 import (
 	"fmt"
 	"go/token"
-	"strings"
 
 	"golang.org/x/tools/go/ssa"
 )
@@ -41,6 +40,9 @@ func ruleEmitEveryElement(names []string, min int) func(p *Prog, l *Ledger, tier
 				continue
 			}
 			for _, li := range loopsOf(fn) {
+				if fixedLocalTableLoop(li) || globalTableLoop(li) {
+					continue // the rows of a fixed table of the program (settings, tags), not elements of the list
+				}
 				var emits []*ssa.BasicBlock
 				for b := range li.blocks {
 					// only emits that belong to this loop directly or to a block of it (inner loops included:
@@ -67,6 +69,9 @@ func ruleEmitEveryElement(names []string, min int) func(p *Prog, l *Ledger, tier
 				for _, inner := range loopsOf(fn) {
 					if inner.header == li.header || !li.blocks[inner.header] {
 						continue
+					}
+					if fixedLocalTableLoop(inner) || globalTableLoop(inner) {
+						continue // the rows of a table of the program are not sub-elements of the current element
 					}
 					for b := range inner.blocks {
 						if emitBlock[b] {
@@ -150,12 +155,18 @@ func emitFreeCycle(li *loopInfo, emitBlock map[*ssa.BasicBlock]bool) []*ssa.Basi
 
 // loopPos: the first source position inside the loop (range loops have no position on their header).
 func loopPos(p *Prog, li *loopInfo) string {
-	if pos := blockPos(p, li.header); !strings.HasPrefix(pos, "block ") {
-		return pos
+	// phi nodes carry the position of the variable's declaration, which may be far above the loop
+	for _, ins := range li.header.Instrs {
+		if _, isPhi := ins.(*ssa.Phi); !isPhi && ins.Pos().IsValid() {
+			return p.Pos(ins.Pos())
+		}
 	}
 	var best token.Pos
 	for b := range li.blocks {
 		for _, ins := range b.Instrs {
+			if _, isPhi := ins.(*ssa.Phi); isPhi {
+				continue
+			}
 			if q := ins.Pos(); q.IsValid() && (best == 0 || q < best) {
 				best = q
 			}
@@ -165,4 +176,38 @@ func loopPos(p *Prog, li *loopInfo) string {
 		return blockPos(p, li.header)
 	}
 	return p.Pos(best)
+}
+
+// globalTableLoop: the loop ranges over a package-level slice or array (its exit test compares the index with the
+// length of a value loaded from a global, or with the constant length of a global array).
+func globalTableLoop(li *loopInfo) bool {
+	iff, ok := li.header.Instrs[len(li.header.Instrs)-1].(*ssa.If)
+	if !ok {
+		return false
+	}
+	bo, ok := iff.Cond.(*ssa.BinOp)
+	if !ok || bo.Op != token.LSS {
+		return false
+	}
+	if c, ok := bo.Y.(*ssa.Call); ok {
+		if bi, ok := c.Call.Value.(*ssa.Builtin); ok && bi.Name() == "len" {
+			if u, ok := c.Call.Args[0].(*ssa.UnOp); ok && u.Op == token.MUL {
+				_, isG := u.X.(*ssa.Global)
+				return isG
+			}
+		}
+		return false
+	}
+	if _, isC := constInt(bo.Y); isC {
+		for b := range li.blocks {
+			for _, ins := range b.Instrs {
+				if ia, ok := ins.(*ssa.IndexAddr); ok && ia.Index == bo.X {
+					if _, isG := ia.X.(*ssa.Global); isG {
+						return true
+					}
+				}
+			}
+		}
+	}
+	return false
 }
